@@ -149,6 +149,58 @@ def run(ctx, res):
     if len(set(out)) != len(out):
         res.failures.append(dict(signature="duplicate-id-threads", what="duplicate identifier from concurrent callers",
                                  case=dict(threads=8, per_thread=2000), detail=None))
+    # another caller scheduled exactly when the generator releases its lock (deterministic stand-in for a
+    # pre-emption between "release" and "return"): the ids of the two callers must still differ
+    class ReleaseHook:
+        def __init__(self, gen, inner):
+            self.gen, self.inner, self.depth, self.busy, self.other = gen, inner, 0, False, []
+
+        def acquire(self, *a, **k):
+            r = self.inner.acquire(*a, **k)
+            self.depth += 1
+            return r
+
+        def release(self):
+            self.depth -= 1
+            self.inner.release()
+            if self.depth == 0 and not self.busy:
+                self.busy = True
+                try:
+                    self.other.append(self.gen.generate())     # "thread B" runs here
+                finally:
+                    self.busy = False
+
+        def __enter__(self):
+            self.acquire()
+            return self
+
+        def __exit__(self, *a):
+            self.release()
+    n_hook = 0
+    for seq in list(sequences(5)):
+        it = iter([c for c in seq for _ in (0, 1)])
+        old = m.time
+        m.time = lambda: next(it)
+        try:
+            g2 = m.BoboGenEventIDUnique("h")
+            if not hasattr(g2, "_lock"):
+                break
+            hook = ReleaseHook(g2, g2._lock)
+            g2._lock = hook
+            mine = [g2.generate() for _ in seq]
+        except StopIteration:
+            continue
+        finally:
+            m.time = old
+        n_hook += 1
+        allids = mine + hook.other
+        if len(set(allids)) != len(allids):
+            res.failures.append(dict(signature="duplicate-id-caller-at-lock-release",
+                                     what="a second caller scheduled at the moment the generator releases its lock got the same identifier",
+                                     case=dict(clock=seq, interleaving="B.generate() at every lock release of A"),
+                                     detail=dict(a=mine, b=hook.other)))
+            break
+    res.extra["lock_release_interleavings"] = n_hook
     # shrink failures: keep the shortest
     res.failures.sort(key=lambda f: len(f["case"].get("clock", [])))
 
